@@ -92,7 +92,17 @@ func newPkg(pkg *packages.Package, u *Universe) Package {
 		return fileLine{position.Filename, position.Line + deltaLine}
 	}
 
+	// trailing comment groups are visited as plain comment groups too,
+	// they must not become the leading comment of the next line
+	trailingCommentGroups := make(map[*ast.CommentGroup]bool)
+
 	collectCommentGroup := func(c *ast.CommentGroup, isTrailing bool, stmtPos token.Pos) {
+		if isTrailing {
+			trailingCommentGroups[c] = true
+		} else if trailingCommentGroups[c] {
+			return
+		}
+
 		fl := fileLineFor(stmtPos, 0)
 
 		if c != nil && c.Pos() == stmtPos {
